@@ -46,7 +46,7 @@ FEATURES = {
     "nested-while-breaks": "o7_ = 0\nfound7_ = []\nwhile o7_ < 4:\n    o7_ += 1\n    i7_ = 0\n    while True:\n        i7_ += 1\n        if i7_ >= o7_:\n            break\n    found7_.append((o7_, i7_, V))\n    if o7_ == 9:\n        break\nelse:\n    print('outer else', found7_)\ndef fw7_(lim_):\n    a7_ = 0\n    while a7_ < lim_:\n        a7_ += 1\n        b7_ = 0\n        while b7_ < 3:\n            b7_ += 1\n            if b7_ == 2:\n                break\n        if a7_ == lim_ + 5:\n            return 'never'\n    else:\n        return ('done', a7_, b7_, V)\n    return 'broken'\nprint(fw7_(3))",
     # a lambda parameter / comprehension target SPELLED like a variable the function shares with a nested def (the helper
     # dictionary must not capture the inner binder); \u00a7 stands for the bare identifier
-    "inner-binder-same-name": "def peek_():\n    return V\nprint(peek_(), [\u00a7 * 2 for \u00a7 in range(3)], (lambda \u00a7: \u00a7 + 1)(4), sorted({\u00a7: \u00a7 for \u00a7 in 'ab'}), list(\u00a7 for \u00a7 in (1, 2) if \u00a7))",
+    "inner-binder-same-name": "def peek_():\n    return V\nprint(peek_(), [\u00a7 * 2 for \u00a7 in range(3)], (lambda \u00a7: \u00a7 + 1)(4), sorted({\u00a7: \u00a7 for \u00a7 in 'ab'}), list(\u00a7 for \u00a7 in (1, 2) if \u00a7), (lambda *\u00a7: \u00a7)(1, 2), (lambda **\u00a7: sorted(\u00a7))(k=1), (lambda a, /, *, \u00a7: \u00a7)(0, \u00a7=5))",
     # two functions on one nesting chain each own captured variables (two helper dictionaries alive at once)
     "two-owners": "def o9_(p_):\n    def m9_(n_):\n        lab_ = (V, p_, n_)\n        def s9_():\n            return lab_, p_\n        return s9_()\n    return m9_(2)\nprint(o9_(1))\ndef t9_():\n    tot_ = 0\n    def mid_(k_):\n        def inn_():\n            nonlocal tot_\n            tot_ += k_\n            return V\n        return inn_()\n    r_ = mid_(5)\n    return tot_, r_\nprint(t9_())\ndef rep_(times_):\n    def deco_(fn_):\n        def wrap_(x_):\n            return [fn_(x_) for _q in range(times_)]\n        return wrap_\n    return deco_\n@rep_(2)\ndef hello_(x_):\n    return (V, x_)\nprint(hello_('k'))",
     "nested-returns": "def o7_(n):\n    def i7_(m):\n        for q7_ in range(m):\n            if q7_ == 1:\n                return (V, q7_)\n        return None\n    while n:\n        n -= 1\n        if i7_(n):\n            return i7_(n)\n    return 'end'\nprint(o7_(3), o7_(1))",
